@@ -298,6 +298,17 @@ def g_direct(rng, seq):
             "value": rng.randrange(0, 1 << 16)}
 
 
+def g_view_call(rng, seq):
+    """README 'Implementational Details', structural variant: an operation of the *view object* handed out by the accessor
+    (`seq.abs.add_message(m)`, `seq.rel.pad(n)` ...), followed by invalidating the other view."""
+    m = rng.choice(["abs.add_message", "abs.add_message", "abs.sort", "abs.quantise", "abs.cutoff", "abs.normalise_absolute",
+                    "rel.add_message", "rel.add_message", "rel.pad", "rel.transpose", "rel.set_channel",
+                    "rel.normalise_relative"])
+    sub = {"abs.add_message": g_add_abs, "abs.quantise": g_quantise, "abs.cutoff": g_cutoff, "rel.add_message": g_add_rel,
+           "rel.pad": g_pad, "rel.transpose": g_transpose, "rel.set_channel": g_set_channel}.get(m, g_none)(rng, seq)
+    return {"method": m, "sub": sub}
+
+
 # ------------------------------------------------------------------ appliers
 
 def _build(a):
@@ -664,6 +675,41 @@ def a_direct(s, a):
     return [r[0], r[1].value if isinstance(r[1], Key) else r[1]]
 
 
+def a_view_call(s, a):
+    view, meth = a["method"].split(".")
+    sub = a.get("sub", {})
+    v = s.abs if view == "abs" else s.rel
+    try:
+        if meth == "add_message" and view == "abs":
+            v.add_message(music.msg_from_dict(sub["msg"]))
+        elif meth == "add_message":
+            idx = sub.get("index")
+            if idx is not None and idx >= 0:
+                idx = idx % (len(v._messages) + 1)
+            v.add_message(music.msg_from_dict(sub["msg"]), index=idx)
+        elif meth == "quantise":
+            v.quantise(resolve_list(sub["steps"]))
+        elif meth == "cutoff":
+            v.cutoff(sub["max"], sub["red"])
+        elif meth == "pad":
+            v.pad(sub["n"])
+        elif meth == "transpose":
+            return v.transpose(sub["by"])
+        elif meth == "set_channel":
+            v.set_channel(sub["ch"])
+        else:
+            getattr(v, meth)()
+    finally:
+        if view == "abs":
+            s.invalidate_rel()
+        else:
+            s.invalidate_abs()
+
+
+def pre_view_call(s, a):
+    return a["method"] != "rel.pad" or a["sub"]["n"] <= MAX_TICKS
+
+
 def pre_scale(s, a, meta_seq=None):
     """L1 precondition: a fractional factor is only legal when it keeps every tick an integer (the library's tick domain is
     the integers; scale(0.5) on an odd wait would create half ticks, which no view conversion is required to preserve)."""
@@ -707,7 +753,7 @@ def pre_pad(s, a):
 
 
 MAX_TICKS = 20000
-PRECOND = {"scale": pre_scale, "pad": pre_pad, "Bar()": pre_make_bar}
+PRECOND = {"scale": pre_scale, "pad": pre_pad, "Bar()": pre_make_bar, "view_call": pre_view_call}
 
 # ------------------------------------------------------------------ the table
 
@@ -729,6 +775,7 @@ OPS = {
     "quantise_note_lengths": (MUT, g_qnl, a_qnl, 4, True),
     "quantise_and_normalise": (MUT, g_qan, a_qan, 3, True),
     "direct_edit": (DIRECT, g_direct, a_direct, 4, False),
+    "view_call": (DIRECT, g_view_call, a_view_call, 3, True),
     "tokenise": (MUT, g_none, a_tokenise, 2, True),
     "Bar()": (MUT, g_make_bar, a_make_bar, 3, False),
     "split": (VAL, g_split, a_split, 4, False),
